@@ -18,7 +18,9 @@ RULE = ("(a) histories: a pool of values (arrays, lists, tuples, objects of ever
         "documented list mutator may change; each non-random call is repeated on deep copies and must give an equal result. "
         "(b) table: every entry of the C15 spec table with its arguments in list / tuple / ndarray form. (c) reflection: every "
         "public zero-argument method and property of every class, single- and multi-valued receivers. Non-trivial: a history "
-        "in which a result of one call is an argument of a later call, or a multi-valued receiver, or an augmented operator.")
+        "in which a result of one call is an argument of a later call, or a multi-valued receiver, or an augmented operator. "
+        "Histories come from a Hypothesis RuleBasedStateMachine (sub-check 'machine': every table callable is a rule, oracle "
+        "after every step), from a list-of-steps strategy, and from exhaustive single calls and ordered pairs.")
 ASSUMPTIONS = ["returning a view of an argument is not a mutation", "callables needing a display or a file (plot, animate, printline) are excluded; counted in evidence",
                "random constructors are excluded from the repeat-call clause only"]
 
@@ -412,6 +414,18 @@ def s_history(maxlen):
     return st.fixed_dictionaries({"kind": st.just("history"), "seeds": seeds, "steps": st.lists(step, min_size=1, max_size=maxlen)})
 
 
+def machine_spec():
+    """stateful form: every library callable of the table is one rule (arguments = indices into the pool of values and
+    earlier results); the runner appends each fired rule to 'steps' and runs the oracle on the history so far"""
+    seeds = st.fixed_dictionaries({
+        "p3": st.lists(gens.pose3(t_hi=2, lo_exp=-3), min_size=3, max_size=3),
+        "p2": st.lists(gens.pose2(t_hi=2), min_size=3, max_size=3),
+        "v6": st.lists(st.lists(gens.fl(-3, 3), min_size=6, max_size=6), min_size=3, max_size=3),
+        "s": gens.fl(0.1, 0.9)})
+    rules = {name: st.tuples(st.just(name), st.integers(0, 50), st.integers(0, 50)).map(list) for name in sorted(optable())}
+    return {"init": st.fixed_dictionaries({"kind": st.just("history"), "seeds": seeds}), "key": "steps", "rules": rules}
+
+
 DEFAULT_SEEDS = {
     "p3": [{"rot": {"axis": [0.3, -0.5, 0.8], "angle": 1.1, "via": "rod"}, "t": [1.0, -2.0, 3.0]},
            {"rot": {"axis": [-0.6, 0.2, 0.4], "angle": 0.7, "via": "rod"}, "t": [0.5, 4.0, -1.0]},
@@ -640,4 +654,5 @@ def subchecks(tier):
         Sub("table", gen=gen_table, shards=(2, 4)),
         Sub("reflect", gen=gen_reflect, shards=(2, 4)),
         Sub("histories", strategy=s_history(12 if tier == "quick" else 40), n=(150, 3000), shards=(8, 16)),
+        Sub("machine", machine=machine_spec, n=(30, 600), shards=(8, 16), steps=(10, 30)),
     ]
